@@ -692,3 +692,63 @@ def replay_starred_tuple(payload):
 for _c in con.cases:
     if _c.name.startswith("sequence-display:("):
         _c.custom_replay = "contracts.c10_subset.replay_starred_tuple"
+
+
+# ---- (10) subscript of a CLASS (`C[8]`): CPython asks the METACLASS for __getitem__ first and falls back to __class_getitem__ -------
+class _MetaSub(type):
+    def __getitem__(cls, item):
+        return ("metaclass.__getitem__", cls.__name__, item)
+
+
+class _Both(metaclass=_MetaSub):
+    def __class_getitem__(cls, item):
+        return ("__class_getitem__", cls.__name__, item)
+
+
+class _OnlyMeta(metaclass=_MetaSub):
+    pass
+
+
+class _OnlyClassGetitem:
+    def __class_getitem__(cls, item):
+        return ("__class_getitem__", cls.__name__, item)
+
+
+class _Neither:
+    pass
+
+
+SUBSCRIPT_NODE = ast.parse("K[8]", mode="eval").body
+
+
+def class_subscript_spec(K):
+    def spec(sx, self, inp):
+        try:
+            want = K[8]
+        except TypeError:
+            sx.reject(AssertionError)
+
+        def holds(res):
+            return isinstance(res, SObj) and res.kind is _Expr and res.fields.get("f_result") == want
+
+        return C.Pred(holds, f"the value CPython computes for {K.__name__}[8]")
+
+    return spec
+
+
+for K in (_Both, _OnlyMeta, _OnlyClassGetitem, _Neither):
+    def _apply_sub_k(it, self, n, K=K):
+        if isinstance(n, ast.Name):
+            return SObj(_Expr, f_result=K, f_bound=[])
+        return SObj(_Expr, f_result=n.value, f_bound=[])
+
+    c = Case(f"class-subscript:{K.__name__}", [SELF, Built([], lambda env: SUBSCRIPT_NODE, lambda a: "<K[8]>", lambda a: None)], class_subscript_spec(K))
+    c.native = False
+
+    def _subcall_k(it, self, fn, args, kwargs, noreturn=None):
+        if hasattr(fn, "self_obj") and hasattr(fn, "fn"):  # a method the interpreter bound to the class (classmethod __class_getitem__)
+            return SObj(_Expr, f_result=fn.fn(fn.self_obj, *args, **kwargs), f_bound=[])
+        return SObj(_Expr, f_result=fn(*args, **kwargs), f_bound=[])
+
+    c.models = NATIVE_TRAITS + [(_Prep.apply, _apply_sub_k), (_Prep.subcall, _subcall_k)]
+    con.cases.append(c)
